@@ -48,6 +48,28 @@ type Case struct {
 	FailKind string `json:"fail_kind,omitempty"`
 	// NoFK: the database URL carries no _fk=1 (SQLite's default: foreign keys not enforced).
 	NoFK bool `json:"no_fk,omitempty"`
+	// Format: "" = an Atlas directory; otherwise the same files in another tool's layout, opened with
+	// ?format=<Format> (plain shapes only).
+	Format string `json:"format,omitempty"`
+}
+
+// writeDir writes the files of a case as a directory of its format.
+func writeDir(w *clih.Work, c Case, m map[string]string) error {
+	if c.Format == "" {
+		return w.WriteDir("migrations", m)
+	}
+	out := map[string]string{}
+	for n, body := range m {
+		v := strings.TrimSuffix(n, "_f.sql")
+		switch c.Format {
+		case "golang-migrate":
+			out[v+"_f.up.sql"] = body
+			out[v+"_f.down.sql"] = "DELETE FROM journal;\n"
+		case "flyway":
+			out["V"+v+"__f.sql"] = body
+		}
+	}
+	return w.WriteDirFormat("migrations", c.Format, out)
 }
 
 func dbURL(w *clih.Work, c Case) string {
@@ -230,7 +252,11 @@ func applyArgs(w *clih.Work, c Case, extra ...string) []string {
 	if c.Count > 0 {
 		a = append(a, strconv.Itoa(c.Count))
 	}
-	a = append(a, "--dir", "file://"+w.Path("migrations"), "--url", dbURL(w, c), "--lock-timeout", "1ms")
+	dir := "file://" + w.Path("migrations")
+	if c.Format != "" {
+		dir += "?format=" + c.Format
+	}
+	a = append(a, "--dir", dir, "--url", dbURL(w, c), "--lock-timeout", "1ms")
 	if c.Mode != "" {
 		a = append(a, "--tx-mode", c.Mode)
 	}
@@ -258,7 +284,7 @@ func evalMigrateFail(c Case) (problems []string, skipped string) {
 		return []string{"harness: " + err.Error()}, ""
 	}
 	defer w.Close()
-	if err := w.WriteDir("migrations", files(c, false)); err != nil {
+	if err := writeDir(w, c, files(c, false)); err != nil {
 		return []string{"harness: " + err.Error()}, ""
 	}
 	want, fails := expect(c)
@@ -278,7 +304,7 @@ func evalMigrateFail(c Case) (problems []string, skipped string) {
 	}
 	if c.Fail2 > 0 {
 		// repair only the first failing statement: the next run must fail again, later in the same file.
-		if err := w.WriteDir("migrations", filesLvl(c, 1)); err != nil {
+		if err := writeDir(w, c, filesLvl(c, 1)); err != nil {
 			return []string{"harness: " + err.Error()}, ""
 		}
 		rr := w.Run(nil, applyArgs(w, c)...)
@@ -289,7 +315,7 @@ func evalMigrateFail(c Case) (problems []string, skipped string) {
 		}
 	}
 	// repair the file, re-hash, run to the end: same final state as a run that never failed.
-	if err := w.WriteDir("migrations", files(c, true)); err != nil {
+	if err := writeDir(w, c, files(c, true)); err != nil {
 		return []string{"harness: " + err.Error()}, ""
 	}
 	full := c
@@ -308,7 +334,7 @@ func evalMigrateFail(c Case) (problems []string, skipped string) {
 		return []string{"harness: " + err.Error()}, ""
 	}
 	defer ref.Close()
-	ref.WriteDir("migrations", files(c, true))
+	writeDir(ref, c, files(c, true))
 	// the reference run uses the same directory path so that nothing path-dependent differs.
 	r3 := ref.Run(nil, applyArgs(ref, full)...)
 	if r3.Exit != 0 {
@@ -843,6 +869,9 @@ func cases(tier string) []Case {
 							cs = append(cs, Case{Kind: "migrate_fail", Mode: mode, Shape: s2, FailF: f, FailK: k, Count: n})
 							if n == 0 && d == (dir{}) {
 								cs = append(cs, Case{Kind: "migrate_fail", Mode: mode, Shape: s2, FailF: f, FailK: k, NoFK: true})
+								for _, fm := range []string{"golang-migrate", "flyway"} {
+									cs = append(cs, Case{Kind: "migrate_fail", Mode: mode, Shape: s2, FailF: f, FailK: k, Format: fm})
+								}
 								cs = append(cs, Case{Kind: "migrate_fail", Mode: mode, Shape: s2, FailF: f, FailK: k, FailKind: "or_rollback"})
 							}
 						}
@@ -946,7 +975,7 @@ func classify(c Case, problems []string) string {
 
 func Run(r *report.Run) {
 	defer clih.Cleanup()
-	r.Rule = "real CLI on real SQLite files: (1) `migrate apply`: directory shapes (1-3 files x 1-3 statements, and directories with a checkpoint file preceded by older files) x a really failing statement (naming a missing table; for the plain directories also a constraint violation with the SQLite conflict clause OR ROLLBACK) at every position x tx-mode {file, all, none} (also with a database URL that does not switch foreign-key enforcement on) x per-file txmode directive on the failing / preceding file x apply count {all, 1, 2} (plus every pair of failing positions in one file, repaired one after the other): the state after the failure (journal rows written by the statements themselves + revision rows, read by our own connection) must equal what the mode promises, and after repairing the file and re-running the full dump must equal that of a run that never failed; (1b) a failure of the commit itself: the SQLite driver refuses to commit a transaction that adds a foreign-key violation; on a database that already holds one (two) orphan rows the first file replaces them by another orphan (same / lower count), and on a database without violations the first file adds one in a child table with / without a rowid: file and all mode must fail and keep nothing; (1c) a commit that fails for a reason outside the file: another connection holds a read transaction on the database while the files are applied (connection with and without foreign-key enforcement): the command must fail, keep nothing of the files, and the same command again must complete; (2) `migrate apply --dry-run` from 5 start states (fresh, partially applied, one file applied, fully applied, non-empty without history) x modes x count x {--baseline, --allow-dirty}: dump and directory byte-identical; (3) `schema apply` on populated tables whose plan fails midway on the data, default / file / none tx-mode, approved by --auto-approve or at the prompt, and --dry-run (also of plans that would succeed, alone and together with --format / --log / --auto-approve); non-trivial = every case; distinct = the case tuple"
+	r.Rule = "real CLI on real SQLite files: (1) `migrate apply`: directory shapes (1-3 files x 1-3 statements, and directories with a checkpoint file preceded by older files) x a really failing statement (naming a missing table; for the plain directories also a constraint violation with the SQLite conflict clause OR ROLLBACK) at every position x tx-mode {file, all, none} (also with a database URL that does not switch foreign-key enforcement on, and with the directory in the golang-migrate / flyway layout) x per-file txmode directive on the failing / preceding file x apply count {all, 1, 2} (plus every pair of failing positions in one file, repaired one after the other): the state after the failure (journal rows written by the statements themselves + revision rows, read by our own connection) must equal what the mode promises, and after repairing the file and re-running the full dump must equal that of a run that never failed; (1b) a failure of the commit itself: the SQLite driver refuses to commit a transaction that adds a foreign-key violation; on a database that already holds one (two) orphan rows the first file replaces them by another orphan (same / lower count), and on a database without violations the first file adds one in a child table with / without a rowid: file and all mode must fail and keep nothing; (1c) a commit that fails for a reason outside the file: another connection holds a read transaction on the database while the files are applied (connection with and without foreign-key enforcement): the command must fail, keep nothing of the files, and the same command again must complete; (2) `migrate apply --dry-run` from 5 start states (fresh, partially applied, one file applied, fully applied, non-empty without history) x modes x count x {--baseline, --allow-dirty}: dump and directory byte-identical; (3) `schema apply` on populated tables whose plan fails midway on the data, default / file / none tx-mode, approved by --auto-approve or at the prompt, and --dry-run (also of plans that would succeed, alone and together with --format / --log / --auto-approve); non-trivial = every case; distinct = the case tuple"
 	r.Assumptions = []string{
 		"after a repair the hash / partial_hashes columns of the revision row legitimately differ from a never-failed run and are masked; timestamps are masked",
 		"`--tx-mode all` with per-file txmode directives is rejected by the CLI and not enumerated",
